@@ -63,6 +63,9 @@ type funcSpec struct {
 	// nilable: slice variables (named results included) whose being nil is tested and differs from being empty: translated as
 	// Option; a value assigned to one is wrapped in `some` — i.e. ASSUMED not to be nil (say why in the directive's comment)
 	nilable []string
+	// exits: module functions that do not return (they end the process): a call is a fault, `Go.Fault.panic (1000+k)` for the
+	// k-th such call site of the function (listed in its doc comment); arguments are evaluated first
+	exits []string
 	// expose: local variables holding abstract state (a connection) whose final value is handed back after the results,
 	// as an Option (none: the return happens before the variable exists), so that a theorem can speak about what was done to it
 	expose []string
@@ -145,8 +148,8 @@ var funcSpecs = []funcSpec{
 	{rel: "", name: "(*ScryptIdentity).SetMaxWorkFactor"},
 	{rel: "plugin", name: "(*Recipient).WrapWithLabels", abstract: pluginAbstract, opaque: pluginOpaque, wrapTransparent: true, threaded: pluginThreaded,
 		nilable: []string{"labels"}, // format.ReadStanza builds Args by slicing a non-empty slice: it is never nil
-		expose: []string{"conn"},
-		params: []string{"(reader_remaining : σ → Nat)"}, fuel: map[int]string{1: "reader_remaining sr + 1"}},
+		expose:  []string{"conn"},
+		params:  []string{"(reader_remaining : σ → Nat)"}, fuel: map[int]string{1: "reader_remaining sr + 1"}},
 	{rel: "plugin", name: "(*Identity).Unwrap", abstract: pluginAbstract, opaque: pluginOpaque, wrapTransparent: true, threaded: pluginThreaded, expose: []string{"conn"},
 		params: []string{"(reader_remaining : σ → Nat)"}, fuel: map[int]string{2: "reader_remaining sr + 1"}},
 	{rel: "cmd/age", name: "parseRecipient", abstract: []string{"plugin.NewRecipient", "age.ParseX25519Recipient", "agessh.ParseRecipient"}, opaque: cliOpaque},
@@ -156,6 +159,8 @@ var funcSpecs = []funcSpec{
 	{rel: "internal/format", name: "(*Header).Marshal", abstract: append([]string{"format.EncodeToString"}, marshalAbstract...), opaque: marshalOpaque, threaded: marshalThreaded},
 	{rel: "cmd/age", name: "(*lazyOpener).Write", abstract: []string{"os.Create"}, opaque: map[string]string{"os.File": "φ"}},
 	{rel: "cmd/age", name: "(*lazyOpener).Close", opaque: map[string]string{"os.File": "φ"}},
+	{rel: "cmd/age", name: "decrypt", abstract: []string{"armor.NewReader", "age.Decrypt", "io.Copy"}, exits: []string{"main.errorf", "main.errorWithHint"},
+		opaque: map[string]string{"age.Identity": "ι", "io.Writer": "δ"}, threaded: map[string][]string{"io.Copy": {"out"}}},
 	{rel: "", name: "ParseRecipients", abstract: []string{"age.ParseX25519Recipient"}, opaque: map[string]string{"Recipient": "κ", "X25519Recipient": "κ"}, errInts: true},
 }
 
@@ -257,6 +262,7 @@ type fctx struct {
 	recvIdent    *ast.Ident // an identifier that denotes the receiver (for the calls of closures)
 	noHoist      bool       // the statement being translated deals with the handed-back receiver itself
 	pendingLabel string     // label of the loop statement about to be translated
+	exitN        int        // exit sites so far
 	sprintfN     int        // opaque Sprintf texts so far
 }
 
@@ -2477,6 +2483,26 @@ func (c *fctx) stmt(e *emitter, ind int, s ast.Stmt) {
 		if f, ok := c.fi.Pkg.callee(call).(*types.Func); ok && f.Pkg() != nil && f.Pkg().Path() == "sort" && f.Name() == "Strings" {
 			c.assignTo(e, ind, call.Args[0], "(Go.sort_Strings "+c.expr(call.Args[0])+")", false)
 			return
+		}
+		if f, ok := c.fi.Pkg.callee(call).(*types.Func); ok && f.Pkg() != nil && c.spec != nil {
+			for _, x := range c.spec.exits {
+				if x == f.Pkg().Name()+"."+f.Name() {
+					for _, a := range call.Args {
+						if c.partial(a) {
+							e.add(ind, "let _ := "+c.expr(a))
+						}
+					}
+					k := c.exitN
+					c.exitN++
+					msg := ""
+					if len(call.Args) > 0 {
+						msg, _ = c.fi.Pkg.constString(call.Args[0])
+					}
+					c.sites = append(c.sites, fmt.Sprintf("exit site %d (line %d): %s(%q, …) ends the process", k, c.t.pr.line(call.Pos()), f.Name(), msg))
+					e.add(ind, fmt.Sprintf("throw (Go.Fault.panic %d)", 1000+k))
+					return
+				}
+			}
 		}
 		if b, ok := c.fi.Pkg.callee(call).(*types.Builtin); ok && b.Name() == "panic" {
 			k := c.panicN
